@@ -166,7 +166,8 @@ fn run_bridge_builtin(spec: &str, args: &[P]) -> String {
     let stack = Rc::new(RefCell::new(Stack::new()));
     let mut ctx = Ctx::new(&function, stack, Cow::Owned(vec![]), None);
     ctx.push(P::Vector(recv.clone()));
-    ctx.push(P::Function(PrimitiveFunction::new("verif.mmm#__fn0".to_string(), None)));
+    // the callback is a closure: it carries a (here empty) map of captured variables that every invocation must receive
+    ctx.push(P::Function(PrimitiveFunction::new("verif.mmm#__fn0".to_string(), Some(crate::stack::VariableMapping::default()))));
     let items = |v: &[P]| v.iter().map(item).collect::<Vec<_>>().join(",");
     let contents = |v: &crate::GcVector| items(&v.0.borrow());
     let mut calls: Vec<String> = vec![];
@@ -187,7 +188,11 @@ fn run_bridge_builtin(spec: &str, args: &[P]) -> String {
                         break;
                     }
                 };
-                calls.push(items(&req.arguments));
+                let dest = match &req.destination {
+                    crate::instruction::JumpRequestDestination::Standard(p) if p == "verif.mmm#__fn0" => "cb",
+                    _ => "other",
+                };
+                calls.push(format!("{}@{}{}", items(&req.arguments), dest, if req.callback_state.is_some() { "+captured" } else { "" }));
                 let rv = ReturnValue::Value(rets[i].clone());
                 i += 1;
                 match bridge.then(rv) {
